@@ -1,8 +1,11 @@
 import MidiModel.Msg
 import MidiModel.Generated.UtilsGo
+import MidiModel.Generated.MidiGo
 /-!
-# C07 / C08, tie to the source: the `internal/utils` bit helpers as translated from the working tree are the
-model's (`MidiModel/Msg.lean`). Regenerated on every run by `tools/go2lean`.
+# C07 / C08, tie to the source: the `internal/utils` bit helpers and every channel-voice / system-common constructor
+(`v2/channel.go`, `v2/helpers.go`, `v2/syscommon.go`) as translated from the working tree are the model's functions
+(`MidiModel/Msg.lean`), for every argument. Regenerated on every run by `tools/go2lean`; C07's theorems about the
+model's constructors (`Props/C07.lean`) thereby speak about the translated source text.
 -/
 namespace Midi.C07
 open Midi Midi.Msg Midi.Go
@@ -38,5 +41,109 @@ theorem code_MsbLsbSigned (n : Int) :
   have : Go.toU 16 (Go.wrapS 16 (n + 8192)) = (((n + 8192 + 32768) % 65536 - 32768) % 65536).toNat := by
     unfold Go.toU Go.wrapS; congr 1
   rw [this]
+
+/-! ## the constructors -/
+
+theorem code_getCompleteStatus (st ch : Nat) (tb : Bool) (d : List Nat) :
+    midi.channelMessage.getCompleteStatus { status := st, channel := ch, twoBytes := tb, data := d } =
+      getCompleteStatus st ch := rfl
+
+theorem code_channelMessage2 (c st a b : Nat) : midi.channelMessage2 c st a b = .ok (channelMessage2 c st a b) := by
+  unfold midi.channelMessage2 midi.channelMessage.bytes
+  simp [Go.setIdx, Go.idx, channelMessage2]
+  rfl
+
+theorem code_channelMessage1 (c st a : Nat) : midi.channelMessage1 c st a = .ok (channelMessage1 c st a) := by
+  unfold midi.channelMessage1 midi.channelMessage.bytes
+  simp [Go.setIdx, Go.idx, channelMessage1]
+  rfl
+
+theorem code_NoteOn (c k v : Nat) : midi.NoteOn c k v = .ok (noteOn c k v) := by
+  unfold midi.NoteOn noteOn clampHi
+  simp only [code_channelMessage2]
+  by_cases h1 : c > 15 <;> by_cases h2 : k > 127 <;> by_cases h3 : v > 127 <;> simp [h1, h2, h3]
+
+theorem code_NoteOffVelocity (c k v : Nat) : midi.NoteOffVelocity c k v = .ok (noteOffVelocity c k v) := by
+  unfold midi.NoteOffVelocity noteOffVelocity clampHi
+  simp only [code_channelMessage2]
+  by_cases h1 : c > 15 <;> by_cases h2 : k > 127 <;> by_cases h3 : v > 127 <;> simp [h1, h2, h3]
+
+theorem code_NoteOff (c k : Nat) : midi.NoteOff c k = .ok (noteOff c k) := by
+  unfold midi.NoteOff noteOff clampHi
+  simp only [code_channelMessage2]
+  by_cases h1 : c > 15 <;> by_cases h2 : k > 127 <;> simp [h1, h2]
+
+theorem code_PolyAfterTouch (c k v : Nat) : midi.PolyAfterTouch c k v = .ok (polyAfterTouch c k v) := by
+  unfold midi.PolyAfterTouch polyAfterTouch clampHi
+  simp only [code_channelMessage2]
+  by_cases h1 : c > 15 <;> by_cases h2 : k > 127 <;> by_cases h3 : v > 127 <;> simp [h1, h2, h3]
+
+theorem code_ControlChange (c k v : Nat) : midi.ControlChange c k v = .ok (controlChange c k v) := by
+  unfold midi.ControlChange controlChange clampHi
+  simp only [code_channelMessage2]
+  by_cases h1 : c > 15 <;> by_cases h2 : k > 127 <;> by_cases h3 : v > 127 <;> simp [h1, h2, h3]
+
+theorem code_ProgramChange (c p : Nat) : midi.ProgramChange c p = .ok (programChange c p) := by
+  unfold midi.ProgramChange programChange clampHi
+  simp only [code_channelMessage1]
+  by_cases h1 : c > 15 <;> by_cases h2 : p > 127 <;> simp [h1, h2]
+
+theorem code_AfterTouch (c p : Nat) : midi.AfterTouch c p = .ok (afterTouch c p) := by
+  unfold midi.AfterTouch afterTouch clampHi
+  simp only [code_channelMessage1]
+  by_cases h1 : c > 15 <;> by_cases h2 : p > 127 <;> simp [h1, h2]
+
+theorem pitch_tail (ch : Nat) (w : Int) :
+    (do
+      let res1 ← utils.MsbLsbSigned w
+      let b ← Go.putU16BE (List.replicate 2 0) res1
+      let x ← Go.idx b 0
+      let y ← Go.idx b 1
+      midi.channelMessage2 ch 14 x y : Except String (List Nat)) =
+    (match msbLsbSigned w with
+      | some r => .ok (channelMessage2 ch 14 (r >>> 8 % 256) (r % 256))
+      | none => .error "panic") := by
+  rw [code_MsbLsbSigned]
+  cases msbLsbSigned w with
+  | none => rfl
+  | some r =>
+    simp only [bind, Except.bind, Go.putU16BE, Go.idx, code_channelMessage2, Nat.shiftRight_eq_div_pow]
+    simp
+    rfl
+
+/-- `Pitchbend`: the translated function panics exactly where the model says `none` (it never does: `Props/C07.lean`) -/
+theorem code_Pitchbend (c : Nat) (v : Int) :
+    midi.Pitchbend c v = (match pitchbend c v with | some m => .ok m | none => .error "panic") := by
+  have key : ∀ ch w, (match (match msbLsbSigned w with
+        | none => none
+        | some r => some (channelMessage2 ch 14 (r >>> 8 % 256) (r % 256))) with
+      | some m => (Except.ok m : Except String (List Nat)) | none => Except.error "panic") =
+      (match msbLsbSigned w with
+      | some r => .ok (channelMessage2 ch 14 (r >>> 8 % 256) (r % 256))
+      | none => .error "panic") := by
+    intro ch w; cases msbLsbSigned w <;> rfl
+  unfold midi.Pitchbend pitchbend clampPitch clampHi
+  by_cases h1 : c > 15 <;> by_cases h2 : v > 8191
+  · have h3 : ¬ ((8191 : Int) < -8192) := by omega
+    simp only [h1, h2, h3, ↓reduceIte]
+    rw [pitch_tail]; generalize msbLsbSigned _ = o; cases o <;> rfl
+  · by_cases h3 : v < -8192
+    · simp only [h1, h2, h3, ↓reduceIte]; rw [pitch_tail]; generalize msbLsbSigned _ = o; cases o <;> rfl
+    · simp only [h1, h2, h3, ↓reduceIte]; rw [pitch_tail]; generalize msbLsbSigned _ = o; cases o <;> rfl
+  · have h3 : ¬ ((8191 : Int) < -8192) := by omega
+    simp only [h1, h2, h3, ↓reduceIte]
+    rw [pitch_tail]; generalize msbLsbSigned _ = o; cases o <;> rfl
+  · by_cases h3 : v < -8192
+    · simp only [h1, h2, h3, ↓reduceIte]; rw [pitch_tail]; generalize msbLsbSigned _ = o; cases o <;> rfl
+    · simp only [h1, h2, h3, ↓reduceIte]; rw [pitch_tail]; generalize msbLsbSigned _ = o; cases o <;> rfl
+
+theorem code_Tune : midi.Tune = tune := rfl
+theorem code_SongSelect (s : Nat) : midi.SongSelect s = songSelect s := rfl
+theorem code_MTC (m : Nat) (h : m < 256) : midi.MTC m = mtc m := by
+  unfold midi.MTC mtc; simp only [Nat.mod_eq_of_lt h]; rfl
+theorem code_SPP (p : Nat) : midi.SPP p = .ok (spp p) := by
+  unfold midi.SPP spp
+  simp [Go.setIdx, Go.idx]
+  rfl
 
 end Midi.C07
